@@ -234,6 +234,40 @@ func c19ClientIP(p *Prog, r *Report, fn *ssa.Function) {
 						if !guard {
 							verdict, msg = "bad", "the token is returned without checking the parser's error"
 						}
+						// an empty host is not a peer address: the success return lies on the host != "" edge
+						// (":8080" and "[]:8080" parse without error; all such peers would share the token "")
+						if guard {
+							nonEmpty := false
+							for _, b := range fn.Blocks {
+								ifi, ok := b.Instrs[len(b.Instrs)-1].(*ssa.If)
+								if !ok {
+									continue
+								}
+								cond, pos := condStrip(ifi.Cond)
+								bo, ok := cond.(*ssa.BinOp)
+								if !ok || (bo.Op != token.EQL && bo.Op != token.NEQ) {
+									continue
+								}
+								x, y := bo.X, bo.Y
+								if sv, ok := constString(x); ok && sv == "" {
+									x, y = y, x
+								}
+								if sv, ok := constString(y); !ok || sv != "" || stripConv(x) != ssa.Value(ex) {
+									continue
+								}
+								emptyOnTrue := (bo.Op == token.EQL) == pos
+								e := Edge{b, 0}
+								if emptyOnTrue {
+									e = Edge{b, 1}
+								}
+								if OnlyViaEdge(fn, ret, e) {
+									nonEmpty = true
+								}
+							}
+							if !nonEmpty {
+								verdict, msg = "bad", "the token can be the empty string (the host part of \":8080\" parses without error): every peer with such an address is the same source"
+							}
+						}
 					} else {
 						verdict, msg = "bad", "the host:port parser is not applied to req.RemoteAddr itself"
 					}
